@@ -24,6 +24,7 @@ import (
 	"k8s.io/apimachinery/pkg/api/resource"
 	metav1 "k8s.io/apimachinery/pkg/apis/meta/v1"
 	"k8s.io/apimachinery/pkg/types"
+	"k8s.io/client-go/tools/cache"
 
 	"github.com/koordinator-sh/koordinator/apis/extension"
 	schedulingconfig "github.com/koordinator-sh/koordinator/pkg/scheduler/apis/config"
@@ -773,10 +774,108 @@ func (l *vtC06Live) apply(r *vtC06Rd) []int64 {
 			l.edgesDel(uid)
 		}
 		out = append(out, 1, 0, 0)
+	case 5:
+		// an informer event delivered to the real podEventHandler the way client-go delivers it
+		kind, uid, assigned, oldAssigned, phase, bad, excl := r.next(), r.next(), r.next(), r.next(), r.next(), r.next(), r.next()
+		cpus := r.list()
+		nn := int(r.next())
+		status := &extension.ResourceStatus{}
+		var items []string
+		for k, c := range cpus {
+			if k%2 == 0 {
+				items = append(items, fmt.Sprintf("%d-%d", c, c))
+			} else {
+				items = append(items, fmt.Sprintf("%d", c))
+			}
+		}
+		status.CPUSet = strings.Join(items, ",")
+		if bad == 2 {
+			status.CPUSet = "1-x," + status.CPUSet
+		}
+		for j := 0; j < nn; j++ {
+			nd, c, m := r.next(), r.next(), r.next()
+			status.NUMANodeResources = append(status.NUMANodeResources, extension.NUMANodeResource{Node: int32(nd), Resources: vtC06ResList(c, m)})
+		}
+		pod := &corev1.Pod{ObjectMeta: metav1.ObjectMeta{UID: vtC06UID(uid), Namespace: "default", Name: string(vtC06UID(uid))},
+			Status: corev1.PodStatus{Phase: []corev1.PodPhase{corev1.PodPending, corev1.PodRunning, corev1.PodSucceeded, corev1.PodFailed}[phase]}}
+		if assigned != 0 {
+			pod.Spec.NodeName = vtC06Node
+		}
+		if err := extension.SetResourceStatus(pod, status); err != nil {
+			panic(err)
+		}
+		if err := extension.SetResourceSpec(pod, &extension.ResourceSpec{PreferredCPUExclusivePolicy: extension.CPUExclusivePolicy(vtC06Excl(excl))}); err != nil {
+			panic(err)
+		}
+		if bad == 1 {
+			pod.Annotations[extension.AnnotationResourceStatus] = "{\"cpuset\": "
+		}
+		if bad == 3 {
+			pod.Annotations[extension.AnnotationResourceSpec] = "[1"
+		}
+		// the previous version of the object as the informer's store had it: same identity, no
+		// allocation recorded yet
+		old := &corev1.Pod{ObjectMeta: metav1.ObjectMeta{UID: pod.UID, Namespace: pod.Namespace, Name: pod.Name},
+			Status: corev1.PodStatus{Phase: corev1.PodPending}}
+		if oldAssigned != 0 {
+			old.Spec.NodeName = vtC06Node
+		}
+		key := pod.Namespace + "/" + pod.Name
+		switch kind {
+		case 0:
+			l.handler.OnAdd(pod, false)
+		case 1:
+			l.handler.OnUpdate(old, pod)
+		case 2:
+			l.handler.OnDelete(pod)
+		case 3:
+			l.handler.OnDelete(cache.DeletedFinalStateUnknown{Key: key, Obj: pod})
+		case 4:
+			l.handler.OnDelete(cache.DeletedFinalStateUnknown{Key: key, Obj: &corev1.Node{ObjectMeta: metav1.ObjectMeta{Name: pod.Name}}})
+		case 5:
+			l.handler.OnAdd(&corev1.Node{ObjectMeta: metav1.ObjectMeta{Name: pod.Name}}, false)
+		case 6:
+			l.handler.deletePod(pod)
+		case 7:
+			l.handler.OnUpdate(&corev1.Node{ObjectMeta: metav1.ObjectMeta{Name: pod.Name}}, pod)
+		default:
+			panic("bad event kind")
+		}
+		// bookkeeping of the give-back edges (Spec.event_effect: 0 nothing, 1 alive, 2 dead)
+		if vtC06EventEffect(kind, assigned != 0, oldAssigned != 0, phase >= 2, bad != 0, len(cpus) == 0 && nn == 0) != 0 {
+			l.edgesDel(uid)
+		}
+		out = append(out, 1, 0, 0)
 	default:
 		panic("bad op")
 	}
 	return append(out, vtC06Dump(l.rm)...)
+}
+
+// the property's reading of an informer event (Spec.event_effect), from the event's content only
+func vtC06EventEffect(kind int64, assigned, oldAssigned, terminated, bad, empty bool) int {
+	switch kind {
+	case 2, 3, 6:
+		if assigned {
+			return 2
+		}
+		return 0
+	case 0, 1:
+		if !assigned {
+			if kind == 1 && oldAssigned {
+				return 2
+			}
+			return 0
+		}
+		if terminated {
+			return 2
+		}
+		if bad || empty {
+			return 0
+		}
+		return 1
+	}
+	return 0
 }
 
 func vtC06LedgerExec(in []int64) []int64 {
@@ -975,7 +1074,16 @@ func vtC06HistoryGen(r *rand.Rand, style int) (string, []int64) {
 		}
 		switch {
 		case x < 5 && !(giveBacks && x < 2):
-			in = append(in, 2, uid)
+			if r.Intn(2) == 0 {
+				// the pod goes away the way the informer reports it
+				in = append(in, vtC06GenEvent(r, uid, cpus, nodes, memUnit, false, true)...)
+			} else {
+				in = append(in, 2, uid)
+			}
+		case x == 8 && !withUpdates:
+			in = append(in, vtC06GenEvent(r, uid, cpus, nodes, memUnit, false, false)...)
+		case x < 8 && withUpdates && r.Intn(2) == 0:
+			in = append(in, vtC06GenEvent(r, uid, cpus, nodes, memUnit, true, false)...)
 		case x < 8 && withUpdates:
 			var ids []int
 			cnt := r.Intn(5)
@@ -1060,6 +1168,52 @@ func vtC06HistoryGen(r *rand.Rand, style int) (string, []int64) {
 		}
 	}
 	return fmt.Sprintf("%s:ref%d:ops%d", label, maxRef, nops), in
+}
+
+// one informer event (op 5). allowLive: the event may (re-)record an allocation read from the
+// annotations; ending: prefer events that end the pod's life on the node
+func vtC06GenEvent(r *rand.Rand, uid int64, cpus []vtC06CPU, nodes []int, memUnit int64, allowLive, ending bool) []int64 {
+	kind := []int64{0, 0, 0, 1, 1, 1, 1, 2, 2, 2, 3, 3, 3, 3, 4, 5, 6, 6, 7, 1}[r.Intn(20)]
+	assigned, oldAssigned := int64(1), int64(r.Intn(2))
+	if r.Intn(7) == 0 {
+		assigned = 0
+	}
+	phase := []int64{1, 1, 1, 1, 0, 0, 2, 2, 3, 3}[r.Intn(10)]
+	bad := int64(0)
+	if r.Intn(7) == 0 {
+		bad = int64(1 + r.Intn(3))
+	}
+	if ending && r.Intn(4) != 0 {
+		switch r.Intn(5) {
+		case 0:
+			kind = 2
+		case 1, 2:
+			kind = 3
+		case 3:
+			kind, phase = int64(r.Intn(2)), int64(2+r.Intn(2))
+		default:
+			kind, assigned, oldAssigned = 1, 0, 1
+		}
+		if kind != 1 || assigned != 0 {
+			assigned = 1
+		}
+	}
+	var ids []int
+	cnt := r.Intn(5)
+	for j := 0; j < cnt; j++ {
+		ids = append(ids, cpus[r.Intn(len(cpus))].id)
+	}
+	nn := r.Intn(3)
+	if !allowLive && vtC06EventEffect(kind, assigned != 0, oldAssigned != 0, phase >= 2, bad != 0, cnt == 0 && nn == 0) == 1 {
+		kind = int64(2 + r.Intn(2)) // a deletion instead
+	}
+	ev := []int64{5, kind, uid, assigned, oldAssigned, phase, bad, int64(r.Intn(3))}
+	ev = append(ev, vtC06Ints(ids)...)
+	ev = append(ev, int64(nn))
+	for j := 0; j < nn; j++ {
+		ev = append(ev, int64(nodes[r.Intn(len(nodes))]), 1000*int64(r.Intn(4)), memUnit*int64(r.Intn(4)))
+	}
+	return ev
 }
 
 func TestVerifC06Ledger(t *testing.T) {
